@@ -417,13 +417,21 @@ type HCase struct {
 	Statuses []int32  `json:"statuses"`
 	Queries  []string `json:"queries"` // service names asked for (may be unknown); "\x00none" = no parameter
 	Overall  int32    `json:"overall"` // status set on "" (0 = leave default)
+	UserRule int      `json:"user_rule"` // the config also holds a user rule of its own on Health.Check (get /livez): 1 = added before AddHealthz is called, 2 = after (0 = none)
 }
 
 func CheckHealth(c HCase) []evid.Violation {
 	var vs []evid.Violation
 	hs := health.NewServer()
 	cfg := &serviceconfig.Service{}
+	user := &annotations.HttpRule{Selector: "grpc.health.v1.Health.Check", Pattern: &annotations.HttpRule_Get{Get: "/livez"}}
+	if c.UserRule == 1 {
+		cfg.Http = &annotations.Http{Rules: []*annotations.HttpRule{user}}
+	}
 	health.AddHealthz(cfg)
+	if c.UserRule == 2 {
+		cfg.Http.Rules = append(cfg.Http.Rules, user)
+	}
 	mux, err := larking.NewMux(larking.ServiceConfigOption(cfg))
 	if err != nil {
 		panic(err)
@@ -446,21 +454,27 @@ func CheckHealth(c HCase) []evid.Violation {
 			raw = "service=" + url.QueryEscape(q)
 			name = q
 		}
-		res := drive.Serve(mux, drive.Request("GET", "/v1/healthz", raw, nil, nil, 0))
-		if res.Panic != nil {
-			vs = append(vs, evid.V("panic", res.PanicSig(), "healthz panic: %v", res.Panic))
-			continue
+		paths := []string{"/v1/healthz"}
+		if c.UserRule != 0 {
+			paths = append(paths, "/livez") // the user's own rule and AddHealthz's rule select the same method: both are bound
 		}
-		want, known := model[name]
-		if !known {
-			if res.Rec.Code != http.StatusNotFound {
-				vs = append(vs, evid.V("healthz-unknown", "", "GET /v1/healthz?%s for unknown service -> %d %s, want 404", raw, res.Rec.Code, res.Rec.Body.String()))
+		for _, path := range paths {
+			res := drive.Serve(mux, drive.Request("GET", path, raw, nil, nil, 0))
+			if res.Panic != nil {
+				vs = append(vs, evid.V("panic", res.PanicSig(), "healthz panic: %v", res.Panic))
+				continue
 			}
-			continue
-		}
-		var rsp healthpb.HealthCheckResponse
-		if res.Rec.Code != 200 || protojson.Unmarshal(res.Rec.Body.Bytes(), &rsp) != nil || rsp.Status != want {
-			vs = append(vs, evid.V("healthz-status", "", "GET /v1/healthz?%s -> %d %s, want status %v", raw, res.Rec.Code, res.Rec.Body.String(), want))
+			want, known := model[name]
+			if !known {
+				if res.Rec.Code != http.StatusNotFound {
+					vs = append(vs, evid.V("healthz-unknown", "", "GET %s?%s for unknown service -> %d %s, want 404", path, raw, res.Rec.Code, res.Rec.Body.String()))
+				}
+				continue
+			}
+			var rsp healthpb.HealthCheckResponse
+			if res.Rec.Code != 200 || protojson.Unmarshal(res.Rec.Body.Bytes(), &rsp) != nil || rsp.Status != want {
+				vs = append(vs, evid.V("healthz-status", "", "GET %s?%s -> %d %s, want status %v (user rule mode %d)", path, raw, res.Rec.Code, res.Rec.Body.String(), want, c.UserRule))
+			}
 		}
 	}
 	if c.Watch {
@@ -550,13 +564,14 @@ func TestPropHealthz(t *testing.T) {
 		}
 		c.Overall = int32(rapid.IntRange(0, 2).Draw(t, "overall"))
 		c.Watch = rapid.IntRange(0, 7).Draw(t, "watch") == 0
+		c.UserRule = rapid.SampledFrom([]int{0, 0, 1, 2}).Draw(t, "userRule")
 		c.Queries = append(c.Queries, "\x00none")
 		c.Queries = append(c.Queries, c.Services...)
 		c.Queries = append(c.Queries, nameGen.Filter(func(s string) bool { return s != "" && isValidUTF8(s) }).Draw(t, "unknown"))
 		vs := CheckHealth(c)
 		key := ""
 		if n > 0 {
-			key = fmt.Sprintf("h|%v|%v|%d", c.Services, c.Statuses, c.Overall)
+			key = fmt.Sprintf("h|%v|%v|%d|%d", c.Services, c.Statuses, c.Overall, c.UserRule)
 		}
 		if c.Watch {
 			evid.Eval(key, "healthz", "healthz-ws-watch")
